@@ -3,6 +3,7 @@
 //! slicing / chaining operations at label boundaries.
 use super::machine::{check_value, fill, hexs_raw, rel_of_len};
 use super::refs::*;
+use super::reps::{self, WithName};
 use crate::engine::*;
 use crate::gen::name as gn;
 use crate::gen::*;
@@ -798,6 +799,56 @@ pub fn run_ops(data: &[u8], ctx: &mut Ctx) -> CaseResult {
     let rf = nb.range_from(b);
     check_value("name-range_from", Kind::Abs, rf.as_slice())?;
     vensure!(rf.as_slice() == &abs[b..], "name-range_from:wrong-octets", "range_from({b})");
+    // every RangeBounds shape with an explicit end (the end is a label start
+    // up to the root label's offset, so the result is a relative name)
+    {
+        macro_rules! bounded {
+            ($r:expr, $lo:expr) => {{
+                let s = name.slice($r);
+                check_value("name-slice", Kind::Rel, s.as_slice())?;
+                vensure!(s.as_slice() == &abs[$lo..b], "name-slice:wrong-octets", "slice({:?}) of {}", $r, hexs_raw(&abs));
+                let r = nb.range($r);
+                check_value("name-range", Kind::Rel, r.as_slice())?;
+                vensure!(r.as_slice() == &abs[$lo..b], "name-range:wrong-octets", "range({:?}) of {}", $r, hexs_raw(&abs));
+            }};
+        }
+        bounded!(..b, 0);
+        if b >= 1 {
+            bounded!(a..=b - 1, a);
+            bounded!(..=b - 1, 0);
+        }
+        ctx.class("ops:name-range-shapes:bounded");
+    }
+    // Ranges that take in the root label (no upper bound, or an end equal to
+    // the length of the name): the documentation promises a panic because
+    // the result type is a relative name. The panic is not demanded here,
+    // but a value that IS returned is a name value obtained through the safe
+    // API and has to be a valid relative name.
+    {
+        let full = abs.len();
+        macro_rules! open_end {
+            ($entry:expr, $call:expr) => {{
+                match guarded($entry, || $call.as_slice().to_vec()) {
+                    Ok(w) => {
+                        check_value($entry, Kind::Rel, &w)?;
+                        ctx.class(format!("ops:{}:returned-valid-value", $entry));
+                    }
+                    Err(_) => ctx.class(format!("ops:{}:panics-as-documented", $entry)),
+                }
+            }};
+        }
+        open_end!("name-slice-to-end", name.slice(a..));
+        open_end!("name-slice-to-end", name.slice(..));
+        open_end!("name-slice-to-end", name.slice(a..full));
+        open_end!("name-slice-to-end", name.slice(..=full - 1));
+        open_end!("name-range-to-end", nb.range(a..));
+        open_end!("name-range-to-end", nb.range(..));
+        open_end!("name-range-to-end", nb.range(b..full));
+        open_end!("name-range-to-end", nb.range(b..=full - 1));
+        open_end!("name-range-to-end", name.range(b..));
+        open_end!("name-truncate-to-end", nb.clone().truncate(full));
+        open_end!("name-split-at-end", nb.split(full).0);
+    }
     let (l, rr) = nb.split(a);
     check_value("name-split-left", Kind::Rel, l.as_slice())?;
     check_value("name-split-right", Kind::Abs, rr.as_slice())?;
@@ -859,6 +910,27 @@ pub fn run_ops(data: &[u8], ctx: &mut Ctx) -> CaseResult {
     let r = rb.range(a..b);
     check_value("relative-range", Kind::Rel, r.as_slice())?;
     vensure!(r.as_slice() == &rel[a..b], "relative-range:wrong-octets", "range({a}..{b})");
+    // every RangeBounds shape; for a relative name an open end is fine
+    {
+        macro_rules! shape {
+            ($r:expr, $lo:expr, $hi:expr) => {{
+                let s = rn.slice($r);
+                check_value("relative-slice", Kind::Rel, s.as_slice())?;
+                vensure!(s.as_slice() == &rel[$lo..$hi], "relative-slice:wrong-octets", "slice({:?}) of {}", $r, hexs_raw(&rel));
+                let r = rb.range($r);
+                check_value("relative-range", Kind::Rel, r.as_slice())?;
+                vensure!(r.as_slice() == &rel[$lo..$hi], "relative-range:wrong-octets", "range({:?}) of {}", $r, hexs_raw(&rel));
+            }};
+        }
+        shape!(a.., a, rel.len());
+        shape!(.., 0, rel.len());
+        shape!(..b, 0, b);
+        if b >= 1 {
+            shape!(a..=b - 1, a, b);
+            shape!(..=b - 1, 0, b);
+        }
+        ctx.class("ops:relative-range-shapes");
+    }
     let (l, rr) = rb.split(a);
     check_value("relative-split-left", Kind::Rel, l.as_slice())?;
     check_value("relative-split-right", Kind::Rel, rr.as_slice())?;
@@ -991,7 +1063,52 @@ pub fn run_ops(data: &[u8], ctx: &mut Ctx) -> CaseResult {
         Ok(n) => check_value("reverse_from_addr", Kind::Abs, n.as_slice())?,
         Err(e) => vfail!("reverse_from_addr:failed", "{addr}: {e:?}"),
     }
+    // The chain again with the right-hand side in another REPRESENTATION
+    // (flat, behind `&N`, itself a chain, a compressed ParsedName); the
+    // choices are drawn last so that earlier decisions keep their bytes.
+    let rep = pick(&mut u, reps::ABS_REPS.len());
+    let (s1, s2) = reps::splits(&sw, true, pick(&mut u, 8), pick(&mut u, 8));
+    let total = plen + sw.len();
+    let repn = reps::ABS_REPS[rep];
+    match reps::with_abs(&sw, rep, s1, s2, ChainRight(&rn))? {
+        Ok((lw, flat, clen)) => {
+            if total > 255 {
+                vfail!(if total == 256 { "chain:absolute-too-long-by-one" } else { "chain:accepted-over-limit" }, "chain of {plen} + {} octets ({repn}) accepted", sw.len());
+            }
+            check_value("chain", Kind::Abs, &lw)?;
+            vensure!(lw == [&rel[..], &sw[..]].concat(), "chain:wrong-labels", "chain labels with a {repn} right-hand side: {}", hexs_raw(&lw));
+            check_value("chain-to_name", Kind::Abs, &flat)?;
+            vensure!(flat == lw, "chain-to_name:octets-differ", "to_name with a {repn} right-hand side");
+            vensure!(clen == lw.len(), "chain:compose_len-differs", "compose_len {clen} but labels make {}", lw.len());
+            ctx.class(format!("ops:chain-abs:{}:ok", if reps::abs_rep_is_flat(rep) { "flat" } else { "nonflat" }));
+        }
+        Err(()) => {
+            vensure!(total > 255, "chain:rejected-valid-name", "chain of {plen} + {} = {total} octets ({repn}) refused", sw.len());
+            ctx.class(format!("ops:chain-abs:{}:rejected", if reps::abs_rep_is_flat(rep) { "flat" } else { "nonflat" }));
+        }
+    }
     Ok(())
+}
+
+/// `RelativeName::chain` with whatever representation of the right-hand
+/// side; gives (wire form of the chain's labels, octets of `to_name()`,
+/// `compose_len()`).
+struct ChainRight<'a>(&'a RelativeName<Vec<u8>>);
+impl WithName for ChainRight<'_> {
+    type Out = Result<(Vec<u8>, Vec<u8>, usize), ()>;
+    fn call<N: ToName>(self, n: &N) -> Self::Out {
+        let ch = self.0.clone().chain(n).map_err(|_| ())?;
+        let mut lw = vec![];
+        for (i, l) in ch.iter_labels().enumerate() {
+            if i > 300 {
+                break;
+            }
+            lw.push(l.len() as u8);
+            lw.extend_from_slice(l.as_slice());
+        }
+        let flat: Name<Vec<u8>> = ch.to_name();
+        Ok((lw, flat.as_slice().to_vec(), usize::from(ch.compose_len())))
+    }
 }
 
 #[allow(dead_code)]
